@@ -5,6 +5,7 @@
 //! purl-sim replay <ID> <FILE>
 //! purl-sim digest <ID> --seed N --runs N --workers N
 //! purl-sim show <ID> --seed N --run I
+//! purl-sim miri C12 --seed N --scenarios K [--only I]     (run under `cargo +nightly miri run`, no hook)
 
 mod c12;
 mod c14;
@@ -96,6 +97,39 @@ fn dispatch<S: Sim>(sim: S, cmd: &str, args: &Args) -> Result<i32, String> {
             }
             println!("digest {digest:016x} result {result:?}");
             Ok(0)
+        },
+        "miri" => {
+            // The stub-free lane of C12: executed under Miri without the hook, so the hash keys are
+            // the real RandomState ones (a function of Miri's seed). Every line is self-contained
+            // because the outputs of parallel Miri seeds interleave.
+            let wanted = args.num("--scenarios", 12)?;
+            let only = args.value("--only").map(|v| v.parse::<u64>().unwrap_or(0));
+            let mut picked = 0;
+            let mut failed = 0;
+            let mut i = 0;
+            while picked < wanted && i < 10_000 {
+                let scenario = sim.generate(rng::run_seed(seed, i));
+                let json = serde_json::to_value(&scenario).unwrap();
+                let ops = json["ops"].as_array().map(|a| a.len()).unwrap_or(3);
+                i += 1;
+                if ops < 3 || ops > 10 {
+                    continue;
+                }
+                picked += 1;
+                if only.is_some_and(|o| o != i - 1) {
+                    continue;
+                }
+                let (lines, digest, result) = runner::execute_recorded(&sim, &scenario);
+                match result {
+                    Ok(_) => println!("MIRI-OK scenario={} events={} digest={digest:016x}", i - 1, lines.len()),
+                    Err(v) => {
+                        failed += 1;
+                        println!("MIRI-VIOLATION scenario={} code={} message={}", i - 1, v.code, v.message);
+                        println!("MIRI-SCENARIO scenario={} json={}", i - 1, json);
+                    },
+                }
+            }
+            Ok(if failed > 0 { 1 } else { 0 })
         },
         other => Err(format!("unknown command {other:?}")),
     }
